@@ -645,8 +645,33 @@ class P(core.Prop):
                     out.append({'kind': 'client', 'given': given, 'outs': [a, b]})
                     if a[0] == 'connerr' and b[0] == 'connerr':
                         out.append({'kind': 'client', 'given': given, 'outs': [a, b, ['ok']]})
-        return out, ('TorClientEndpoint.connect: every sequence of <= 2 attempt outcomes over 11 outcome kinds, with and '
-                     'without a given SOCKS endpoint (%d cases)' % len(out))
+        desc = ('TorClientEndpoint.connect: every sequence of <= 2 attempt outcomes over 11 outcome kinds, with and '
+                'without a given SOCKS endpoint (%d cases)' % len(out))
+        if tier == 'thorough':
+            small = self._small_scope()
+            out.extend(small)
+            desc += ('; single calls over every configuration of <= 2 lines from 7 line shapes (plus none / unset with '
+                     'and without a default line) x 6 requests x 4 APIs x accept/refuse (%d cases)' % len(small))
+        return out, desc
+
+    @staticmethod
+    def _small_scope():
+        shapes = ['9050', '9050 IPv6Traffic', '127.0.0.1:9050 IsolateDestAddr', 'unix:/tmp/s',
+                  'unix:/tmp/s WorldWritable', '0', 'auto']
+        configs = [(None, []), (None, ['9050']), ([], [])]
+        configs += [([a], []) for a in shapes]
+        configs += [([a, b], []) for a in shapes for b in shapes]
+        wants = [None, '9050', '905', 'unix:/tmp/s', '127.0.0.1:9050', '7000']
+        out = []
+        for sp, dflt in configs:
+            for api in ('create', 'default', 'cfg_ep', 'cfg_create'):
+                if api.startswith('cfg') and sp == []:
+                    continue
+                for want in (wants if api != 'default' else [None]):
+                    for accept in ((True, False) if api in ('create', 'default', 'cfg_create') else (True,)):
+                        out.append({'kind': 'hist', 'sp': sp, 'dflt': dflt,
+                                    'ops': [{'api': api, 'want': want, 'avail': 40001, 'accept': accept}]})
+        return out
 
     # ---------------------------------------------------------------- shrinking
     def shrink_candidates(self, case):
